@@ -3,6 +3,7 @@ import SevenZ.Driver.Header
 import SevenZ.Model.WriteSession
 import SevenZ.Model.AppendSession
 import SevenZ.Model.EncodedHeader
+import SevenZ.Model.CrashSession
 namespace SevenZ.Driver
 open SevenZ SevenZ.Impl
 
@@ -39,6 +40,19 @@ def parseCoderS (s : String) : Option Coder :=
     let props ← (if p = "N" then some none else (parseHex p).map some)
     pure { method, props }
   | _ => none
+
+/-- the write sequence in canonical form: consecutive writes at consecutive offsets merged, empty writes dropped -/
+def mergeOps : List WriteOp → List WriteOp
+  | [] => []
+  | w :: rest =>
+    if w.data.isEmpty then mergeOps rest else
+    match mergeOps rest with
+    | [] => [w]
+    | v :: more => if v.offset = w.offset + w.data.length then ⟨w.offset, w.data ++ v.data⟩ :: more else w :: v :: more
+
+def showOps : Option (List WriteOp) → String
+  | none => "none"
+  | some ops => ";".intercalate ((mergeOps ops).map (fun w => s!"{w.offset}:{toHex w.data}"))
 
 def sessionHandler (op : String) (args : List String) : Option String :=
   match op, args with
@@ -82,6 +96,29 @@ def sessionHandler (op : String) (args : List String) : Option String :=
     pure (match appendArchive b cfg ms with
       | none => "none"
       | some r => toHex r)
+  | "ws.ops", [en, coders, mm, stages, members] => do
+    let chain ← parseWStages stages
+    let mmap ← parseBits mm
+    let cs ← (coders.splitOn "|").mapM parseCoderS
+    let ms ← (if members = "." then some [] else (members.splitOn ";").mapM parseWMember)
+    let cfg : WConfig Bytes := { coders := cs, methodsMap := mmap, chain := chain, enableDigests := ← parseBool en }
+    pure (showOps (sessionOps cfg ms))
+  | "ws.eops", [hcoders, hstages, hbs, en, coders, mm, stages, members] => do
+    let chain ← parseWStages stages
+    let mmap ← parseBits mm
+    let cs ← (coders.splitOn "|").mapM parseCoderS
+    let ms ← (if members = "." then some [] else (members.splitOn ";").mapM parseWMember)
+    let cfg : WConfig Bytes := { coders := cs, methodsMap := mmap, chain := chain, enableDigests := ← parseBool en }
+    let hcfg : HConfig Bytes := { coders := ← (hcoders.splitOn "|").mapM parseCoderS, chain := ← parseWStages hstages, blocksize := ← hbs.toNat? }
+    pure (showOps (sessionOpsEncoded cfg hcfg ms))
+  | "ws.aops", [base, en, coders, mm, stages, members] => do
+    let b ← parseHex base
+    let chain ← parseWStages stages
+    let mmap ← parseBits mm
+    let cs ← (if coders = "-" then some [] else (coders.splitOn "|").mapM parseCoderS)
+    let ms ← (if members = "." then some [] else (members.splitOn ";").mapM parseWMember)
+    let cfg : WConfig Bytes := { coders := cs, methodsMap := mmap, chain := chain, enableDigests := ← parseBool en }
+    pure (showOps (appendSessionOps b cfg ms))
   | _, _ => none
 
 end SevenZ.Driver
